@@ -89,16 +89,23 @@ class C21(Prop):
     CASE_TIMEOUT = 30
     LEVEL_TEXT = ("Theorems (Coq, closed under the global context) over a line-by-line model of _RemotePathMapper "
                   "(put / get / invalidate_location) and DefaultDataManager (register_path with wrapped locations, "
-                  "register_relation, get_data_locations, get_source_location), for histories of any length over "
-                  "trees of any depth: see design/notes/C21.md for the exact list and for what is partial. The model "
-                  "is tied to /repo by replaying random histories on the real DefaultDataManager and on the model and "
-                  "comparing every answer after every operation; a property oracle written from the text judges the "
-                  "real answers.")
+                  "register_relation, get_data_locations, get_source_location), for states/histories of any length over "
+                  "trees of any depth: registering a path makes it and every ancestor available (every state); after "
+                  "invalidate_location(l, p) nothing at or beneath p is available on l (every state); an invalidation "
+                  "leaves the tree and every object of any other location untouched, so answers for other locations are "
+                  "identical (every state reachable by a history of registrations, relations, invalidations); "
+                  "registrations and relations remove nothing, invalidations add nothing; the chosen source is a reported "
+                  "PRIMARY copy. Not proved as one refinement theorem: the full 'exactly when' characterisation (the "
+                  "frame of a registration and the same-location frame of an invalidation are only exercised); a "
+                  "refuted witness documents the duplicate-object known finding. The model is tied to /repo by replaying "
+                  "random histories on the real DefaultDataManager and on the model and comparing every answer after "
+                  "every operation; a property oracle written from the text judges the real answers.")
     LEVEL_NOTE = ("Trusted: Coq kernel + vm_compute; the hand-written model DataReg/Model.v (tied to the code only by the "
                   "correspondence run); paths restricted to normalised absolute POSIX paths; mount order of "
                   "get_inner_path (sorted, reversed) computed by the harness; relpath and the asyncio 'available' "
-                  "event are not modelled. No axioms.")
-    TECHNIQUE = ("Coq proof (invariants over operation histories, induction on fuel for the recursive invalidation) + "
+                  "event are not modelled; the model walks the flat node list where the code walks the trie "
+                  "depth-first (marking commutes). No axioms.")
+    TECHNIQUE = ("Coq proof (monotonicity orders and a location-key invariant over operation histories) + "
                  "vm_compute correspondence against the real DefaultDataManager")
     RULE = ("histories of 3..14 operations (register_path with PRIMARY/SYMBOLIC_LINK, register_relation between "
             "previously returned locations, invalidate_location, filtered get_data_locations, get_source_location) over "
